@@ -166,6 +166,14 @@
           yr_compiler_set_error_extra_info( \
               compiler, "wrong type \"boolean\" for " op " operator"); \
           break; \
+        case EXPRESSION_TYPE_REGEXP: \
+          yr_compiler_set_error_extra_info( \
+              compiler, "wrong type \"regexp\" for " op " operator"); \
+          break; \
+        default: \
+          yr_compiler_set_error_extra_info( \
+              compiler, "wrong type for " op " operator"); \
+          break; \
       } \
       cleanup; \
       compiler->last_error = ERROR_WRONG_TYPE; \
@@ -204,7 +212,7 @@
     "ABCDEFGHIJKLMNOPQRSTUVWXYZabcdefghijklmnopqrstuvwxyz0123456789+/"
 
 
-#line 208 "libyara/grammar.c"
+#line 216 "libyara/grammar.c"
 
 # ifndef YY_CAST
 #  ifdef __cplusplus
@@ -383,7 +391,7 @@ extern int yara_yydebug;
 #if ! defined YYSTYPE && ! defined YYSTYPE_IS_DECLARED
 union YYSTYPE
 {
-#line 347 "libyara/grammar.y"
+#line 355 "libyara/grammar.y"
 
   YR_EXPRESSION   expression;
   SIZED_STRING*   sized_string;
@@ -398,7 +406,7 @@ union YYSTYPE
   YR_ARENA_REF meta;
   YR_ARENA_REF string;
 
-#line 402 "libyara/grammar.c"
+#line 410 "libyara/grammar.c"
 
 };
 typedef union YYSTYPE YYSTYPE;
@@ -946,23 +954,23 @@ static const yytype_int8 yytranslate[] =
 /* YYRLINE[YYN] -- Source line where rule number YYN was defined.  */
 static const yytype_int16 yyrline[] =
 {
-       0,   366,   366,   367,   368,   369,   370,   371,   372,   376,
-     384,   397,   402,   396,   433,   436,   452,   455,   470,   478,
-     479,   484,   485,   491,   494,   510,   519,   561,   562,   567,
-     584,   598,   612,   626,   644,   645,   651,   650,   667,   666,
-     687,   686,   711,   717,   777,   778,   779,   780,   781,   782,
-     788,   809,   840,   848,   865,   873,   893,   894,   908,   909,
-     910,   911,   912,   916,   917,   931,   935,  1031,  1079,  1140,
-    1186,  1192,  1196,  1231,  1284,  1339,  1370,  1377,  1384,  1397,
-    1408,  1419,  1430,  1441,  1452,  1463,  1474,  1489,  1505,  1517,
-    1592,  1630,  1534,  1759,  1782,  1794,  1822,  1841,  1864,  1912,
-    1919,  1926,  1925,  1972,  1971,  2022,  2030,  2038,  2046,  2054,
-    2062,  2070,  2074,  2082,  2083,  2108,  2128,  2156,  2230,  2262,
-    2280,  2291,  2334,  2350,  2370,  2380,  2379,  2388,  2402,  2403,
-    2408,  2418,  2433,  2432,  2445,  2446,  2451,  2484,  2511,  2567,
-    2574,  2580,  2586,  2596,  2600,  2608,  2620,  2634,  2641,  2648,
-    2673,  2685,  2697,  2709,  2724,  2736,  2751,  2796,  2817,  2852,
-    2887,  2921,  2953,  2977,  2987,  2997,  3007,  3017,  3037,  3057
+       0,   374,   374,   375,   376,   377,   378,   379,   380,   384,
+     392,   405,   410,   404,   441,   444,   460,   463,   478,   486,
+     487,   492,   493,   499,   502,   518,   527,   569,   570,   575,
+     592,   606,   620,   634,   652,   653,   659,   658,   675,   674,
+     695,   694,   719,   725,   785,   786,   787,   788,   789,   790,
+     796,   817,   848,   856,   873,   881,   901,   902,   916,   917,
+     918,   919,   920,   924,   925,   939,   943,  1039,  1087,  1148,
+    1194,  1200,  1204,  1239,  1292,  1347,  1378,  1385,  1392,  1405,
+    1416,  1427,  1438,  1449,  1460,  1471,  1482,  1497,  1513,  1525,
+    1600,  1638,  1542,  1767,  1790,  1802,  1830,  1849,  1872,  1920,
+    1927,  1934,  1933,  1980,  1979,  2030,  2038,  2046,  2054,  2062,
+    2070,  2078,  2082,  2090,  2091,  2116,  2136,  2164,  2238,  2270,
+    2288,  2299,  2342,  2358,  2378,  2388,  2387,  2396,  2410,  2411,
+    2416,  2426,  2441,  2440,  2453,  2454,  2459,  2492,  2519,  2575,
+    2582,  2588,  2594,  2604,  2608,  2616,  2628,  2642,  2649,  2656,
+    2681,  2693,  2705,  2717,  2732,  2744,  2759,  2804,  2825,  2860,
+    2895,  2929,  2961,  2985,  2995,  3005,  3015,  3025,  3045,  3065
 };
 #endif
 
@@ -1778,60 +1786,72 @@ yydestruct (const char *yymsg,
   switch (yykind)
     {
     case YYSYMBOL__IDENTIFIER_: /* "identifier"  */
-#line 317 "libyara/grammar.y"
+#line 325 "libyara/grammar.y"
             { yr_free(((*yyvaluep).c_string)); ((*yyvaluep).c_string) = NULL; }
-#line 1784 "libyara/grammar.c"
+#line 1792 "libyara/grammar.c"
         break;
 
     case YYSYMBOL__STRING_IDENTIFIER_: /* "string identifier"  */
-#line 321 "libyara/grammar.y"
+#line 329 "libyara/grammar.y"
             { yr_free(((*yyvaluep).c_string)); ((*yyvaluep).c_string) = NULL; }
-#line 1790 "libyara/grammar.c"
+#line 1798 "libyara/grammar.c"
         break;
 
     case YYSYMBOL__STRING_COUNT_: /* "string count"  */
-#line 318 "libyara/grammar.y"
+#line 326 "libyara/grammar.y"
             { yr_free(((*yyvaluep).c_string)); ((*yyvaluep).c_string) = NULL; }
-#line 1796 "libyara/grammar.c"
+#line 1804 "libyara/grammar.c"
         break;
 
     case YYSYMBOL__STRING_OFFSET_: /* "string offset"  */
-#line 319 "libyara/grammar.y"
+#line 327 "libyara/grammar.y"
             { yr_free(((*yyvaluep).c_string)); ((*yyvaluep).c_string) = NULL; }
-#line 1802 "libyara/grammar.c"
+#line 1810 "libyara/grammar.c"
         break;
 
     case YYSYMBOL__STRING_LENGTH_: /* "string length"  */
-#line 320 "libyara/grammar.y"
+#line 328 "libyara/grammar.y"
             { yr_free(((*yyvaluep).c_string)); ((*yyvaluep).c_string) = NULL; }
-#line 1808 "libyara/grammar.c"
+#line 1816 "libyara/grammar.c"
         break;
 
     case YYSYMBOL__STRING_IDENTIFIER_WITH_WILDCARD_: /* "string identifier with wildcard"  */
-#line 322 "libyara/grammar.y"
+#line 330 "libyara/grammar.y"
             { yr_free(((*yyvaluep).c_string)); ((*yyvaluep).c_string) = NULL; }
-#line 1814 "libyara/grammar.c"
+#line 1822 "libyara/grammar.c"
         break;
 
     case YYSYMBOL__TEXT_STRING_: /* "text string"  */
-#line 323 "libyara/grammar.y"
+#line 331 "libyara/grammar.y"
             { yr_free(((*yyvaluep).sized_string)); ((*yyvaluep).sized_string) = NULL; }
-#line 1820 "libyara/grammar.c"
+#line 1828 "libyara/grammar.c"
         break;
 
     case YYSYMBOL__HEX_STRING_: /* "hex string"  */
-#line 324 "libyara/grammar.y"
+#line 332 "libyara/grammar.y"
             { yr_free(((*yyvaluep).sized_string)); ((*yyvaluep).sized_string) = NULL; }
-#line 1826 "libyara/grammar.c"
+#line 1834 "libyara/grammar.c"
         break;
 
     case YYSYMBOL__REGEXP_: /* "regular expression"  */
-#line 325 "libyara/grammar.y"
+#line 333 "libyara/grammar.y"
             { yr_free(((*yyvaluep).sized_string)); ((*yyvaluep).sized_string) = NULL; }
-#line 1832 "libyara/grammar.c"
+#line 1840 "libyara/grammar.c"
         break;
 
     case YYSYMBOL_string_modifiers: /* string_modifiers  */
+#line 346 "libyara/grammar.y"
+            {
+  if (((*yyvaluep).modifier).alphabet != NULL)
+  {
+    yr_free(((*yyvaluep).modifier).alphabet);
+    ((*yyvaluep).modifier).alphabet = NULL;
+  }
+}
+#line 1852 "libyara/grammar.c"
+        break;
+
+    case YYSYMBOL_string_modifier: /* string_modifier  */
 #line 338 "libyara/grammar.y"
             {
   if (((*yyvaluep).modifier).alphabet != NULL)
@@ -1840,31 +1860,19 @@ yydestruct (const char *yymsg,
     ((*yyvaluep).modifier).alphabet = NULL;
   }
 }
-#line 1844 "libyara/grammar.c"
-        break;
-
-    case YYSYMBOL_string_modifier: /* string_modifier  */
-#line 330 "libyara/grammar.y"
-            {
-  if (((*yyvaluep).modifier).alphabet != NULL)
-  {
-    yr_free(((*yyvaluep).modifier).alphabet);
-    ((*yyvaluep).modifier).alphabet = NULL;
-  }
-}
-#line 1856 "libyara/grammar.c"
+#line 1864 "libyara/grammar.c"
         break;
 
     case YYSYMBOL_arguments: /* arguments  */
-#line 327 "libyara/grammar.y"
+#line 335 "libyara/grammar.y"
             { yr_free(((*yyvaluep).c_string)); ((*yyvaluep).c_string) = NULL; }
-#line 1862 "libyara/grammar.c"
+#line 1870 "libyara/grammar.c"
         break;
 
     case YYSYMBOL_arguments_list: /* arguments_list  */
-#line 328 "libyara/grammar.y"
+#line 336 "libyara/grammar.y"
             { yr_free(((*yyvaluep).c_string)); ((*yyvaluep).c_string) = NULL; }
-#line 1868 "libyara/grammar.c"
+#line 1876 "libyara/grammar.c"
         break;
 
       default:
@@ -2141,23 +2149,23 @@ yyreduce:
   switch (yyn)
     {
   case 8: /* rules: rules "end of included file"  */
-#line 373 "libyara/grammar.y"
-      {
-        _yr_compiler_pop_file_name(compiler);
-      }
-#line 2149 "libyara/grammar.c"
-    break;
-
-  case 9: /* rules: rules error "end of included file"  */
-#line 377 "libyara/grammar.y"
+#line 381 "libyara/grammar.y"
       {
         _yr_compiler_pop_file_name(compiler);
       }
 #line 2157 "libyara/grammar.c"
     break;
 
-  case 10: /* import: "<import>" "text string"  */
+  case 9: /* rules: rules error "end of included file"  */
 #line 385 "libyara/grammar.y"
+      {
+        _yr_compiler_pop_file_name(compiler);
+      }
+#line 2165 "libyara/grammar.c"
+    break;
+
+  case 10: /* import: "<import>" "text string"  */
+#line 393 "libyara/grammar.y"
       {
         int result = yr_parser_reduce_import(yyscanner, (yyvsp[0].sized_string));
 
@@ -2165,20 +2173,20 @@ yyreduce:
 
         fail_if_error(result);
       }
-#line 2169 "libyara/grammar.c"
+#line 2177 "libyara/grammar.c"
     break;
 
   case 11: /* @1: %empty  */
-#line 397 "libyara/grammar.y"
+#line 405 "libyara/grammar.y"
       {
         fail_if_error(yr_parser_reduce_rule_declaration_phase_1(
             yyscanner, (int32_t) (yyvsp[-2].integer), (yyvsp[0].c_string), &(yyval.rule)));
       }
-#line 2178 "libyara/grammar.c"
+#line 2186 "libyara/grammar.c"
     break;
 
   case 12: /* $@2: %empty  */
-#line 402 "libyara/grammar.y"
+#line 410 "libyara/grammar.y"
       {
         YR_RULE* rule = (YR_RULE*) yr_arena_ref_to_ptr(
             compiler->arena, &(yyvsp[-4].rule));
@@ -2192,11 +2200,11 @@ yyreduce:
         rule->strings = (YR_STRING*) yr_arena_ref_to_ptr(
             compiler->arena, &(yyvsp[0].string));
       }
-#line 2196 "libyara/grammar.c"
+#line 2204 "libyara/grammar.c"
     break;
 
   case 13: /* rule: rule_modifiers "<rule>" "identifier" @1 tags '{' meta strings $@2 condition '}'  */
-#line 416 "libyara/grammar.y"
+#line 424 "libyara/grammar.y"
       {
         YR_RULE* rule = (YR_RULE*) yr_arena_ref_to_ptr(
             compiler->arena, &(yyvsp[-7].rule));
@@ -2209,19 +2217,19 @@ yyreduce:
 
         fail_if_error(result);
       }
-#line 2213 "libyara/grammar.c"
-    break;
-
-  case 14: /* meta: %empty  */
-#line 433 "libyara/grammar.y"
-      {
-        (yyval.meta) = YR_ARENA_NULL_REF;
-      }
 #line 2221 "libyara/grammar.c"
     break;
 
+  case 14: /* meta: %empty  */
+#line 441 "libyara/grammar.y"
+      {
+        (yyval.meta) = YR_ARENA_NULL_REF;
+      }
+#line 2229 "libyara/grammar.c"
+    break;
+
   case 15: /* meta: "<meta>" ':' meta_declarations  */
-#line 437 "libyara/grammar.y"
+#line 445 "libyara/grammar.y"
       {
         YR_META* meta = yr_arena_get_ptr(
             compiler->arena,
@@ -2232,19 +2240,19 @@ yyreduce:
 
         (yyval.meta) = (yyvsp[0].meta);
       }
-#line 2236 "libyara/grammar.c"
-    break;
-
-  case 16: /* strings: %empty  */
-#line 452 "libyara/grammar.y"
-      {
-        (yyval.string) = YR_ARENA_NULL_REF;
-      }
 #line 2244 "libyara/grammar.c"
     break;
 
+  case 16: /* strings: %empty  */
+#line 460 "libyara/grammar.y"
+      {
+        (yyval.string) = YR_ARENA_NULL_REF;
+      }
+#line 2252 "libyara/grammar.c"
+    break;
+
   case 17: /* strings: "<strings>" ':' string_declarations  */
-#line 456 "libyara/grammar.y"
+#line 464 "libyara/grammar.y"
       {
         YR_STRING* string = (YR_STRING*) yr_arena_get_ptr(
             compiler->arena,
@@ -2255,51 +2263,51 @@ yyreduce:
 
         (yyval.string) = (yyvsp[0].string);
       }
-#line 2259 "libyara/grammar.c"
-    break;
-
-  case 18: /* condition: "<condition>" ':' boolean_expression  */
-#line 471 "libyara/grammar.y"
-      {
-        (yyval.expression) = (yyvsp[0].expression);
-      }
 #line 2267 "libyara/grammar.c"
     break;
 
+  case 18: /* condition: "<condition>" ':' boolean_expression  */
+#line 479 "libyara/grammar.y"
+      {
+        (yyval.expression) = (yyvsp[0].expression);
+      }
+#line 2275 "libyara/grammar.c"
+    break;
+
   case 19: /* rule_modifiers: %empty  */
-#line 478 "libyara/grammar.y"
+#line 486 "libyara/grammar.y"
                                        { (yyval.integer) = 0;  }
-#line 2273 "libyara/grammar.c"
+#line 2281 "libyara/grammar.c"
     break;
 
   case 20: /* rule_modifiers: rule_modifiers rule_modifier  */
-#line 479 "libyara/grammar.y"
+#line 487 "libyara/grammar.y"
                                        { (yyval.integer) = (yyvsp[-1].integer) | (yyvsp[0].integer); }
-#line 2279 "libyara/grammar.c"
+#line 2287 "libyara/grammar.c"
     break;
 
   case 21: /* rule_modifier: "<private>"  */
-#line 484 "libyara/grammar.y"
+#line 492 "libyara/grammar.y"
                      { (yyval.integer) = RULE_FLAGS_PRIVATE; }
-#line 2285 "libyara/grammar.c"
+#line 2293 "libyara/grammar.c"
     break;
 
   case 22: /* rule_modifier: "<global>"  */
-#line 485 "libyara/grammar.y"
+#line 493 "libyara/grammar.y"
                      { (yyval.integer) = RULE_FLAGS_GLOBAL; }
-#line 2291 "libyara/grammar.c"
-    break;
-
-  case 23: /* tags: %empty  */
-#line 491 "libyara/grammar.y"
-      {
-        (yyval.tag) = YR_ARENA_NULL_REF;
-      }
 #line 2299 "libyara/grammar.c"
     break;
 
+  case 23: /* tags: %empty  */
+#line 499 "libyara/grammar.y"
+      {
+        (yyval.tag) = YR_ARENA_NULL_REF;
+      }
+#line 2307 "libyara/grammar.c"
+    break;
+
   case 24: /* tags: ':' tag_list  */
-#line 495 "libyara/grammar.y"
+#line 503 "libyara/grammar.y"
       {
         // Tags list is represented in the arena as a sequence
         // of null-terminated strings, the sequence ends with an
@@ -2311,11 +2319,11 @@ yyreduce:
 
         (yyval.tag) = (yyvsp[0].tag);
       }
-#line 2315 "libyara/grammar.c"
+#line 2323 "libyara/grammar.c"
     break;
 
   case 25: /* tag_list: "identifier"  */
-#line 511 "libyara/grammar.y"
+#line 519 "libyara/grammar.y"
       {
         int result = yr_arena_write_string(
             yyget_extra(yyscanner)->arena, YR_SZ_POOL, (yyvsp[0].c_string), &(yyval.tag));
@@ -2324,11 +2332,11 @@ yyreduce:
 
         fail_if_error(result);
       }
-#line 2328 "libyara/grammar.c"
+#line 2336 "libyara/grammar.c"
     break;
 
   case 26: /* tag_list: tag_list "identifier"  */
-#line 520 "libyara/grammar.y"
+#line 528 "libyara/grammar.y"
       {
         YR_ARENA_REF ref;
 
@@ -2365,23 +2373,23 @@ yyreduce:
 
         (yyval.tag) = (yyvsp[-1].tag);
       }
-#line 2369 "libyara/grammar.c"
+#line 2377 "libyara/grammar.c"
     break;
 
   case 27: /* meta_declarations: meta_declaration  */
-#line 561 "libyara/grammar.y"
+#line 569 "libyara/grammar.y"
                                           {  (yyval.meta) = (yyvsp[0].meta); }
-#line 2375 "libyara/grammar.c"
+#line 2383 "libyara/grammar.c"
     break;
 
   case 28: /* meta_declarations: meta_declarations meta_declaration  */
-#line 562 "libyara/grammar.y"
+#line 570 "libyara/grammar.y"
                                           {  (yyval.meta) = (yyvsp[-1].meta); }
-#line 2381 "libyara/grammar.c"
+#line 2389 "libyara/grammar.c"
     break;
 
   case 29: /* meta_declaration: "identifier" '=' "text string"  */
-#line 568 "libyara/grammar.y"
+#line 576 "libyara/grammar.y"
       {
         SIZED_STRING* sized_string = (yyvsp[0].sized_string);
 
@@ -2398,11 +2406,11 @@ yyreduce:
 
         fail_if_error(result);
       }
-#line 2402 "libyara/grammar.c"
+#line 2410 "libyara/grammar.c"
     break;
 
   case 30: /* meta_declaration: "identifier" '=' "integer number"  */
-#line 585 "libyara/grammar.y"
+#line 593 "libyara/grammar.y"
       {
         int result = yr_parser_reduce_meta_declaration(
             yyscanner,
@@ -2416,11 +2424,11 @@ yyreduce:
 
         fail_if_error(result);
       }
-#line 2420 "libyara/grammar.c"
+#line 2428 "libyara/grammar.c"
     break;
 
   case 31: /* meta_declaration: "identifier" '=' '-' "integer number"  */
-#line 599 "libyara/grammar.y"
+#line 607 "libyara/grammar.y"
       {
         int result = yr_parser_reduce_meta_declaration(
             yyscanner,
@@ -2434,11 +2442,11 @@ yyreduce:
 
         fail_if_error(result);
       }
-#line 2438 "libyara/grammar.c"
+#line 2446 "libyara/grammar.c"
     break;
 
   case 32: /* meta_declaration: "identifier" '=' "<true>"  */
-#line 613 "libyara/grammar.y"
+#line 621 "libyara/grammar.y"
       {
         int result = yr_parser_reduce_meta_declaration(
             yyscanner,
@@ -2452,11 +2460,11 @@ yyreduce:
 
         fail_if_error(result);
       }
-#line 2456 "libyara/grammar.c"
+#line 2464 "libyara/grammar.c"
     break;
 
   case 33: /* meta_declaration: "identifier" '=' "<false>"  */
-#line 627 "libyara/grammar.y"
+#line 635 "libyara/grammar.y"
       {
         int result = yr_parser_reduce_meta_declaration(
             yyscanner,
@@ -2470,31 +2478,31 @@ yyreduce:
 
         fail_if_error(result);
       }
-#line 2474 "libyara/grammar.c"
+#line 2482 "libyara/grammar.c"
     break;
 
   case 34: /* string_declarations: string_declaration  */
-#line 644 "libyara/grammar.y"
+#line 652 "libyara/grammar.y"
                                               { (yyval.string) = (yyvsp[0].string); }
-#line 2480 "libyara/grammar.c"
+#line 2488 "libyara/grammar.c"
     break;
 
   case 35: /* string_declarations: string_declarations string_declaration  */
-#line 645 "libyara/grammar.y"
+#line 653 "libyara/grammar.y"
                                               { (yyval.string) = (yyvsp[-1].string); }
-#line 2486 "libyara/grammar.c"
-    break;
-
-  case 36: /* $@3: %empty  */
-#line 651 "libyara/grammar.y"
-      {
-        compiler->current_line = yyget_lineno(yyscanner);
-      }
 #line 2494 "libyara/grammar.c"
     break;
 
+  case 36: /* $@3: %empty  */
+#line 659 "libyara/grammar.y"
+      {
+        compiler->current_line = yyget_lineno(yyscanner);
+      }
+#line 2502 "libyara/grammar.c"
+    break;
+
   case 37: /* string_declaration: "string identifier" '=' $@3 "text string" string_modifiers  */
-#line 655 "libyara/grammar.y"
+#line 663 "libyara/grammar.y"
       {
         int result = yr_parser_reduce_string_declaration(
             yyscanner, (yyvsp[0].modifier), (yyvsp[-4].c_string), (yyvsp[-1].sized_string), &(yyval.string));
@@ -2506,19 +2514,19 @@ yyreduce:
         fail_if_error(result);
         compiler->current_line = 0;
       }
-#line 2510 "libyara/grammar.c"
-    break;
-
-  case 38: /* $@4: %empty  */
-#line 667 "libyara/grammar.y"
-      {
-        compiler->current_line = yyget_lineno(yyscanner);
-      }
 #line 2518 "libyara/grammar.c"
     break;
 
+  case 38: /* $@4: %empty  */
+#line 675 "libyara/grammar.y"
+      {
+        compiler->current_line = yyget_lineno(yyscanner);
+      }
+#line 2526 "libyara/grammar.c"
+    break;
+
   case 39: /* string_declaration: "string identifier" '=' $@4 "regular expression" regexp_modifiers  */
-#line 671 "libyara/grammar.y"
+#line 679 "libyara/grammar.y"
       {
         int result;
 
@@ -2534,19 +2542,19 @@ yyreduce:
 
         compiler->current_line = 0;
       }
-#line 2538 "libyara/grammar.c"
-    break;
-
-  case 40: /* $@5: %empty  */
-#line 687 "libyara/grammar.y"
-      {
-        compiler->current_line = yyget_lineno(yyscanner);
-      }
 #line 2546 "libyara/grammar.c"
     break;
 
+  case 40: /* $@5: %empty  */
+#line 695 "libyara/grammar.y"
+      {
+        compiler->current_line = yyget_lineno(yyscanner);
+      }
+#line 2554 "libyara/grammar.c"
+    break;
+
   case 41: /* string_declaration: "string identifier" '=' $@5 "hex string" hex_modifiers  */
-#line 691 "libyara/grammar.y"
+#line 699 "libyara/grammar.y"
       {
         int result;
 
@@ -2562,22 +2570,22 @@ yyreduce:
 
         compiler->current_line = 0;
       }
-#line 2566 "libyara/grammar.c"
+#line 2574 "libyara/grammar.c"
     break;
 
   case 42: /* string_modifiers: %empty  */
-#line 711 "libyara/grammar.y"
+#line 719 "libyara/grammar.y"
       {
         (yyval.modifier).flags = 0;
         (yyval.modifier).xor_min = 0;
         (yyval.modifier).xor_max = 0;
         (yyval.modifier).alphabet = NULL;
       }
-#line 2577 "libyara/grammar.c"
+#line 2585 "libyara/grammar.c"
     break;
 
   case 43: /* string_modifiers: string_modifiers string_modifier  */
-#line 718 "libyara/grammar.y"
+#line 726 "libyara/grammar.y"
       {
         (yyval.modifier) = (yyvsp[-1].modifier);
 
@@ -2633,51 +2641,51 @@ yyreduce:
           (yyval.modifier).flags = (yyval.modifier).flags | (yyvsp[0].modifier).flags;
         }
       }
-#line 2637 "libyara/grammar.c"
+#line 2645 "libyara/grammar.c"
     break;
 
   case 44: /* string_modifier: "<wide>"  */
-#line 777 "libyara/grammar.y"
+#line 785 "libyara/grammar.y"
                     { (yyval.modifier).flags = STRING_FLAGS_WIDE; }
-#line 2643 "libyara/grammar.c"
+#line 2651 "libyara/grammar.c"
     break;
 
   case 45: /* string_modifier: "<ascii>"  */
-#line 778 "libyara/grammar.y"
+#line 786 "libyara/grammar.y"
                     { (yyval.modifier).flags = STRING_FLAGS_ASCII; }
-#line 2649 "libyara/grammar.c"
+#line 2657 "libyara/grammar.c"
     break;
 
   case 46: /* string_modifier: "<nocase>"  */
-#line 779 "libyara/grammar.y"
+#line 787 "libyara/grammar.y"
                     { (yyval.modifier).flags = STRING_FLAGS_NO_CASE; }
-#line 2655 "libyara/grammar.c"
+#line 2663 "libyara/grammar.c"
     break;
 
   case 47: /* string_modifier: "<fullword>"  */
-#line 780 "libyara/grammar.y"
+#line 788 "libyara/grammar.y"
                     { (yyval.modifier).flags = STRING_FLAGS_FULL_WORD; }
-#line 2661 "libyara/grammar.c"
+#line 2669 "libyara/grammar.c"
     break;
 
   case 48: /* string_modifier: "<private>"  */
-#line 781 "libyara/grammar.y"
+#line 789 "libyara/grammar.y"
                     { (yyval.modifier).flags = STRING_FLAGS_PRIVATE; }
-#line 2667 "libyara/grammar.c"
+#line 2675 "libyara/grammar.c"
     break;
 
   case 49: /* string_modifier: "<xor>"  */
-#line 783 "libyara/grammar.y"
+#line 791 "libyara/grammar.y"
       {
         (yyval.modifier).flags = STRING_FLAGS_XOR;
         (yyval.modifier).xor_min = 0;
         (yyval.modifier).xor_max = 255;
       }
-#line 2677 "libyara/grammar.c"
+#line 2685 "libyara/grammar.c"
     break;
 
   case 50: /* string_modifier: "<xor>" '(' "integer number" ')'  */
-#line 789 "libyara/grammar.y"
+#line 797 "libyara/grammar.y"
       {
         int result = ERROR_SUCCESS;
 
@@ -2693,11 +2701,11 @@ yyreduce:
         (yyval.modifier).xor_min = (uint8_t) (yyvsp[-1].integer);
         (yyval.modifier).xor_max = (uint8_t) (yyvsp[-1].integer);
       }
-#line 2697 "libyara/grammar.c"
+#line 2705 "libyara/grammar.c"
     break;
 
   case 51: /* string_modifier: "<xor>" '(' "integer number" '-' "integer number" ')'  */
-#line 810 "libyara/grammar.y"
+#line 818 "libyara/grammar.y"
       {
         int result = ERROR_SUCCESS;
 
@@ -2728,11 +2736,11 @@ yyreduce:
         (yyval.modifier).xor_min = (uint8_t) (yyvsp[-3].integer);
         (yyval.modifier).xor_max = (uint8_t) (yyvsp[-1].integer);
       }
-#line 2732 "libyara/grammar.c"
+#line 2740 "libyara/grammar.c"
     break;
 
   case 52: /* string_modifier: "<base64>"  */
-#line 841 "libyara/grammar.y"
+#line 849 "libyara/grammar.y"
       {
         (yyval.modifier).flags = STRING_FLAGS_BASE64;
         (yyval.modifier).alphabet = ss_new(DEFAULT_BASE64_ALPHABET);
@@ -2740,11 +2748,11 @@ yyreduce:
         if ((yyval.modifier).alphabet == NULL)
           fail_with_error(ERROR_INSUFFICIENT_MEMORY);
       }
-#line 2744 "libyara/grammar.c"
+#line 2752 "libyara/grammar.c"
     break;
 
   case 53: /* string_modifier: "<base64>" '(' "text string" ')'  */
-#line 849 "libyara/grammar.y"
+#line 857 "libyara/grammar.y"
       {
         int result = ERROR_SUCCESS;
 
@@ -2761,11 +2769,11 @@ yyreduce:
         (yyval.modifier).flags = STRING_FLAGS_BASE64;
         (yyval.modifier).alphabet = (yyvsp[-1].sized_string);
       }
-#line 2765 "libyara/grammar.c"
+#line 2773 "libyara/grammar.c"
     break;
 
   case 54: /* string_modifier: "<base64wide>"  */
-#line 866 "libyara/grammar.y"
+#line 874 "libyara/grammar.y"
       {
         (yyval.modifier).flags = STRING_FLAGS_BASE64_WIDE;
         (yyval.modifier).alphabet = ss_new(DEFAULT_BASE64_ALPHABET);
@@ -2773,11 +2781,11 @@ yyreduce:
         if ((yyval.modifier).alphabet == NULL)
           fail_with_error(ERROR_INSUFFICIENT_MEMORY);
       }
-#line 2777 "libyara/grammar.c"
+#line 2785 "libyara/grammar.c"
     break;
 
   case 55: /* string_modifier: "<base64wide>" '(' "text string" ')'  */
-#line 874 "libyara/grammar.y"
+#line 882 "libyara/grammar.y"
       {
         int result = ERROR_SUCCESS;
 
@@ -2794,17 +2802,17 @@ yyreduce:
         (yyval.modifier).flags = STRING_FLAGS_BASE64_WIDE;
         (yyval.modifier).alphabet = (yyvsp[-1].sized_string);
       }
-#line 2798 "libyara/grammar.c"
+#line 2806 "libyara/grammar.c"
     break;
 
   case 56: /* regexp_modifiers: %empty  */
-#line 893 "libyara/grammar.y"
+#line 901 "libyara/grammar.y"
                                           { (yyval.modifier).flags = 0; }
-#line 2804 "libyara/grammar.c"
+#line 2812 "libyara/grammar.c"
     break;
 
   case 57: /* regexp_modifiers: regexp_modifiers regexp_modifier  */
-#line 895 "libyara/grammar.y"
+#line 903 "libyara/grammar.y"
       {
         if ((yyvsp[-1].modifier).flags & (yyvsp[0].modifier).flags)
         {
@@ -2815,47 +2823,47 @@ yyreduce:
           (yyval.modifier).flags = (yyvsp[-1].modifier).flags | (yyvsp[0].modifier).flags;
         }
       }
-#line 2819 "libyara/grammar.c"
+#line 2827 "libyara/grammar.c"
     break;
 
   case 58: /* regexp_modifier: "<wide>"  */
-#line 908 "libyara/grammar.y"
+#line 916 "libyara/grammar.y"
                     { (yyval.modifier).flags = STRING_FLAGS_WIDE; }
-#line 2825 "libyara/grammar.c"
+#line 2833 "libyara/grammar.c"
     break;
 
   case 59: /* regexp_modifier: "<ascii>"  */
-#line 909 "libyara/grammar.y"
+#line 917 "libyara/grammar.y"
                     { (yyval.modifier).flags = STRING_FLAGS_ASCII; }
-#line 2831 "libyara/grammar.c"
+#line 2839 "libyara/grammar.c"
     break;
 
   case 60: /* regexp_modifier: "<nocase>"  */
-#line 910 "libyara/grammar.y"
+#line 918 "libyara/grammar.y"
                     { (yyval.modifier).flags = STRING_FLAGS_NO_CASE; }
-#line 2837 "libyara/grammar.c"
+#line 2845 "libyara/grammar.c"
     break;
 
   case 61: /* regexp_modifier: "<fullword>"  */
-#line 911 "libyara/grammar.y"
+#line 919 "libyara/grammar.y"
                     { (yyval.modifier).flags = STRING_FLAGS_FULL_WORD; }
-#line 2843 "libyara/grammar.c"
+#line 2851 "libyara/grammar.c"
     break;
 
   case 62: /* regexp_modifier: "<private>"  */
-#line 912 "libyara/grammar.y"
+#line 920 "libyara/grammar.y"
                     { (yyval.modifier).flags = STRING_FLAGS_PRIVATE; }
-#line 2849 "libyara/grammar.c"
+#line 2857 "libyara/grammar.c"
     break;
 
   case 63: /* hex_modifiers: %empty  */
-#line 916 "libyara/grammar.y"
+#line 924 "libyara/grammar.y"
                                           { (yyval.modifier).flags = 0; }
-#line 2855 "libyara/grammar.c"
+#line 2863 "libyara/grammar.c"
     break;
 
   case 64: /* hex_modifiers: hex_modifiers hex_modifier  */
-#line 918 "libyara/grammar.y"
+#line 926 "libyara/grammar.y"
       {
         if ((yyvsp[-1].modifier).flags & (yyvsp[0].modifier).flags)
         {
@@ -2866,17 +2874,17 @@ yyreduce:
           (yyval.modifier).flags = (yyvsp[-1].modifier).flags | (yyvsp[0].modifier).flags;
         }
       }
-#line 2870 "libyara/grammar.c"
+#line 2878 "libyara/grammar.c"
     break;
 
   case 65: /* hex_modifier: "<private>"  */
-#line 931 "libyara/grammar.y"
+#line 939 "libyara/grammar.y"
                     { (yyval.modifier).flags = STRING_FLAGS_PRIVATE; }
-#line 2876 "libyara/grammar.c"
+#line 2884 "libyara/grammar.c"
     break;
 
   case 66: /* identifier: "identifier"  */
-#line 936 "libyara/grammar.y"
+#line 944 "libyara/grammar.y"
       {
         YR_EXPRESSION expr;
 
@@ -2972,11 +2980,11 @@ yyreduce:
 
         fail_if_error(result);
       }
-#line 2976 "libyara/grammar.c"
+#line 2984 "libyara/grammar.c"
     break;
 
   case 67: /* identifier: identifier '.' "identifier"  */
-#line 1032 "libyara/grammar.y"
+#line 1040 "libyara/grammar.y"
       {
         int result = ERROR_SUCCESS;
         YR_OBJECT* field = NULL;
@@ -3024,11 +3032,11 @@ yyreduce:
 
         fail_if_error(result);
       }
-#line 3028 "libyara/grammar.c"
+#line 3036 "libyara/grammar.c"
     break;
 
   case 68: /* identifier: identifier '[' primary_expression ']'  */
-#line 1080 "libyara/grammar.y"
+#line 1088 "libyara/grammar.y"
       {
         int result = ERROR_SUCCESS;
         YR_OBJECT_ARRAY* array;
@@ -3088,11 +3096,11 @@ yyreduce:
 
         fail_if_error(result);
       }
-#line 3092 "libyara/grammar.c"
+#line 3100 "libyara/grammar.c"
     break;
 
   case 69: /* identifier: identifier '(' arguments ')'  */
-#line 1141 "libyara/grammar.y"
+#line 1149 "libyara/grammar.y"
       {
         YR_ARENA_REF ref = YR_ARENA_NULL_REF;
         int result = ERROR_SUCCESS;
@@ -3133,28 +3141,28 @@ yyreduce:
 
         fail_if_error(result);
       }
-#line 3137 "libyara/grammar.c"
+#line 3145 "libyara/grammar.c"
     break;
 
   case 70: /* arguments: %empty  */
-#line 1186 "libyara/grammar.y"
+#line 1194 "libyara/grammar.y"
       {
         (yyval.c_string) = yr_strdup("");
 
         if ((yyval.c_string) == NULL)
           fail_with_error(ERROR_INSUFFICIENT_MEMORY);
       }
-#line 3148 "libyara/grammar.c"
+#line 3156 "libyara/grammar.c"
     break;
 
   case 71: /* arguments: arguments_list  */
-#line 1192 "libyara/grammar.y"
+#line 1200 "libyara/grammar.y"
                       { (yyval.c_string) = (yyvsp[0].c_string); }
-#line 3154 "libyara/grammar.c"
+#line 3162 "libyara/grammar.c"
     break;
 
   case 72: /* arguments_list: expression  */
-#line 1197 "libyara/grammar.y"
+#line 1205 "libyara/grammar.y"
       {
         (yyval.c_string) = (char*) yr_malloc(YR_MAX_FUNCTION_ARGS + 1);
 
@@ -3189,11 +3197,11 @@ yyreduce:
             assert(compiler->last_error != ERROR_SUCCESS);
         }
       }
-#line 3193 "libyara/grammar.c"
+#line 3201 "libyara/grammar.c"
     break;
 
   case 73: /* arguments_list: arguments_list ',' expression  */
-#line 1232 "libyara/grammar.y"
+#line 1240 "libyara/grammar.y"
       {
         int result = ERROR_SUCCESS;
 
@@ -3242,11 +3250,11 @@ yyreduce:
 
         (yyval.c_string) = (yyvsp[-2].c_string);
       }
-#line 3246 "libyara/grammar.c"
+#line 3254 "libyara/grammar.c"
     break;
 
   case 74: /* regexp: "regular expression"  */
-#line 1285 "libyara/grammar.y"
+#line 1293 "libyara/grammar.y"
       {
         YR_ARENA_REF re_ref;
         RE_ERROR error;
@@ -3297,11 +3305,11 @@ yyreduce:
 
         (yyval.expression).type = EXPRESSION_TYPE_REGEXP;
       }
-#line 3301 "libyara/grammar.c"
+#line 3309 "libyara/grammar.c"
     break;
 
   case 75: /* boolean_expression: expression  */
-#line 1340 "libyara/grammar.y"
+#line 1348 "libyara/grammar.y"
       {
         if ((yyvsp[0].expression).type == EXPRESSION_TYPE_STRING)
         {
@@ -3329,33 +3337,33 @@ yyreduce:
 
         (yyval.expression).type = EXPRESSION_TYPE_BOOLEAN;
       }
-#line 3333 "libyara/grammar.c"
+#line 3341 "libyara/grammar.c"
     break;
 
   case 76: /* expression: "<true>"  */
-#line 1371 "libyara/grammar.y"
+#line 1379 "libyara/grammar.y"
       {
         fail_if_error(yr_parser_emit_push_const(yyscanner, 1));
 
         (yyval.expression).type = EXPRESSION_TYPE_BOOLEAN;
         (yyval.expression).required_strings.count = 0;
       }
-#line 3344 "libyara/grammar.c"
+#line 3352 "libyara/grammar.c"
     break;
 
   case 77: /* expression: "<false>"  */
-#line 1378 "libyara/grammar.y"
+#line 1386 "libyara/grammar.y"
       {
         fail_if_error(yr_parser_emit_push_const(yyscanner, 0));
 
         (yyval.expression).type = EXPRESSION_TYPE_BOOLEAN;
         (yyval.expression).required_strings.count = 0;
       }
-#line 3355 "libyara/grammar.c"
+#line 3363 "libyara/grammar.c"
     break;
 
   case 78: /* expression: primary_expression "<matches>" regexp  */
-#line 1385 "libyara/grammar.y"
+#line 1393 "libyara/grammar.y"
       {
         check_type((yyvsp[-2].expression), EXPRESSION_TYPE_STRING, "matches");
         check_type((yyvsp[0].expression), EXPRESSION_TYPE_REGEXP, "matches");
@@ -3368,11 +3376,11 @@ yyreduce:
         (yyval.expression).type = EXPRESSION_TYPE_BOOLEAN;
         (yyval.expression).required_strings.count = 0;
       }
-#line 3372 "libyara/grammar.c"
+#line 3380 "libyara/grammar.c"
     break;
 
   case 79: /* expression: primary_expression "<contains>" primary_expression  */
-#line 1398 "libyara/grammar.y"
+#line 1406 "libyara/grammar.y"
       {
         check_type((yyvsp[-2].expression), EXPRESSION_TYPE_STRING, "contains");
         check_type((yyvsp[0].expression), EXPRESSION_TYPE_STRING, "contains");
@@ -3383,11 +3391,11 @@ yyreduce:
         (yyval.expression).type = EXPRESSION_TYPE_BOOLEAN;
         (yyval.expression).required_strings.count = 0;
       }
-#line 3387 "libyara/grammar.c"
+#line 3395 "libyara/grammar.c"
     break;
 
   case 80: /* expression: primary_expression "<icontains>" primary_expression  */
-#line 1409 "libyara/grammar.y"
+#line 1417 "libyara/grammar.y"
       {
         check_type((yyvsp[-2].expression), EXPRESSION_TYPE_STRING, "icontains");
         check_type((yyvsp[0].expression), EXPRESSION_TYPE_STRING, "icontains");
@@ -3398,11 +3406,11 @@ yyreduce:
         (yyval.expression).type = EXPRESSION_TYPE_BOOLEAN;
         (yyval.expression).required_strings.count = 0;
       }
-#line 3402 "libyara/grammar.c"
+#line 3410 "libyara/grammar.c"
     break;
 
   case 81: /* expression: primary_expression "<startswith>" primary_expression  */
-#line 1420 "libyara/grammar.y"
+#line 1428 "libyara/grammar.y"
       {
         check_type((yyvsp[-2].expression), EXPRESSION_TYPE_STRING, "startswith");
         check_type((yyvsp[0].expression), EXPRESSION_TYPE_STRING, "startswith");
@@ -3413,11 +3421,11 @@ yyreduce:
         (yyval.expression).type = EXPRESSION_TYPE_BOOLEAN;
         (yyval.expression).required_strings.count = 0;
       }
-#line 3417 "libyara/grammar.c"
+#line 3425 "libyara/grammar.c"
     break;
 
   case 82: /* expression: primary_expression "<istartswith>" primary_expression  */
-#line 1431 "libyara/grammar.y"
+#line 1439 "libyara/grammar.y"
       {
         check_type((yyvsp[-2].expression), EXPRESSION_TYPE_STRING, "istartswith");
         check_type((yyvsp[0].expression), EXPRESSION_TYPE_STRING, "istartswith");
@@ -3428,11 +3436,11 @@ yyreduce:
         (yyval.expression).type = EXPRESSION_TYPE_BOOLEAN;
         (yyval.expression).required_strings.count = 0;
       }
-#line 3432 "libyara/grammar.c"
+#line 3440 "libyara/grammar.c"
     break;
 
   case 83: /* expression: primary_expression "<endswith>" primary_expression  */
-#line 1442 "libyara/grammar.y"
+#line 1450 "libyara/grammar.y"
       {
         check_type((yyvsp[-2].expression), EXPRESSION_TYPE_STRING, "endswith");
         check_type((yyvsp[0].expression), EXPRESSION_TYPE_STRING, "endswith");
@@ -3443,11 +3451,11 @@ yyreduce:
         (yyval.expression).type = EXPRESSION_TYPE_BOOLEAN;
         (yyval.expression).required_strings.count = 0;
       }
-#line 3447 "libyara/grammar.c"
+#line 3455 "libyara/grammar.c"
     break;
 
   case 84: /* expression: primary_expression "<iendswith>" primary_expression  */
-#line 1453 "libyara/grammar.y"
+#line 1461 "libyara/grammar.y"
       {
         check_type((yyvsp[-2].expression), EXPRESSION_TYPE_STRING, "iendswith");
         check_type((yyvsp[0].expression), EXPRESSION_TYPE_STRING, "iendswith");
@@ -3458,11 +3466,11 @@ yyreduce:
         (yyval.expression).type = EXPRESSION_TYPE_BOOLEAN;
         (yyval.expression).required_strings.count = 0;
       }
-#line 3462 "libyara/grammar.c"
+#line 3470 "libyara/grammar.c"
     break;
 
   case 85: /* expression: primary_expression "<iequals>" primary_expression  */
-#line 1464 "libyara/grammar.y"
+#line 1472 "libyara/grammar.y"
       {
         check_type((yyvsp[-2].expression), EXPRESSION_TYPE_STRING, "iequals");
         check_type((yyvsp[0].expression), EXPRESSION_TYPE_STRING, "iequals");
@@ -3473,11 +3481,11 @@ yyreduce:
         (yyval.expression).type = EXPRESSION_TYPE_BOOLEAN;
         (yyval.expression).required_strings.count = 0;
       }
-#line 3477 "libyara/grammar.c"
+#line 3485 "libyara/grammar.c"
     break;
 
   case 86: /* expression: "string identifier"  */
-#line 1475 "libyara/grammar.y"
+#line 1483 "libyara/grammar.y"
       {
         int result = yr_parser_reduce_string_identifier(
             yyscanner,
@@ -3492,11 +3500,11 @@ yyreduce:
         (yyval.expression).type = EXPRESSION_TYPE_BOOLEAN;
         (yyval.expression).required_strings.count = 1;
       }
-#line 3496 "libyara/grammar.c"
+#line 3504 "libyara/grammar.c"
     break;
 
   case 87: /* expression: "string identifier" "<at>" primary_expression  */
-#line 1490 "libyara/grammar.y"
+#line 1498 "libyara/grammar.y"
       {
         int result;
 
@@ -3512,11 +3520,11 @@ yyreduce:
         (yyval.expression).required_strings.count = 1;
         (yyval.expression).type = EXPRESSION_TYPE_BOOLEAN;
       }
-#line 3516 "libyara/grammar.c"
+#line 3524 "libyara/grammar.c"
     break;
 
   case 88: /* expression: "string identifier" "<in>" range  */
-#line 1506 "libyara/grammar.y"
+#line 1514 "libyara/grammar.y"
       {
         int result = yr_parser_reduce_string_identifier(
             yyscanner, (yyvsp[-2].c_string), OP_FOUND_IN, YR_UNDEFINED);
@@ -3528,11 +3536,11 @@ yyreduce:
         (yyval.expression).required_strings.count = 1;
         (yyval.expression).type = EXPRESSION_TYPE_BOOLEAN;
       }
-#line 3532 "libyara/grammar.c"
+#line 3540 "libyara/grammar.c"
     break;
 
   case 89: /* expression: "<for>" for_expression error  */
-#line 1518 "libyara/grammar.y"
+#line 1526 "libyara/grammar.y"
       {
         // Free all the loop variable identifiers, including the variables for
         // the current loop (represented by loop_index), and set loop_index to
@@ -3549,11 +3557,11 @@ yyreduce:
         compiler->loop_index = -1;
         YYERROR;
       }
-#line 3553 "libyara/grammar.c"
+#line 3561 "libyara/grammar.c"
     break;
 
   case 90: /* $@6: %empty  */
-#line 1592 "libyara/grammar.y"
+#line 1600 "libyara/grammar.y"
       {
         // var_frame is used for accessing local variables used in this loop.
         // All local variables are accessed using var_frame as a reference,
@@ -3591,11 +3599,11 @@ yyreduce:
         fail_if_error(yr_parser_emit_with_arg(
             yyscanner, OP_POP_M, var_frame + 2, NULL, NULL));
       }
-#line 3595 "libyara/grammar.c"
+#line 3603 "libyara/grammar.c"
     break;
 
   case 91: /* $@7: %empty  */
-#line 1630 "libyara/grammar.y"
+#line 1638 "libyara/grammar.y"
       {
         YR_LOOP_CONTEXT* loop_ctx = &compiler->loop[compiler->loop_index];
         YR_FIXUP* fixup;
@@ -3644,11 +3652,11 @@ yyreduce:
 
         loop_ctx->start_ref = loop_start_ref;
       }
-#line 3648 "libyara/grammar.c"
+#line 3656 "libyara/grammar.c"
     break;
 
   case 92: /* expression: "<for>" for_expression $@6 for_iteration ':' $@7 '(' boolean_expression ')'  */
-#line 1679 "libyara/grammar.y"
+#line 1687 "libyara/grammar.y"
       {
         int32_t jmp_offset;
         YR_FIXUP* fixup;
@@ -3729,11 +3737,11 @@ yyreduce:
         (yyval.expression).type = EXPRESSION_TYPE_BOOLEAN;
         (yyval.expression).required_strings.count = 0;
       }
-#line 3733 "libyara/grammar.c"
+#line 3741 "libyara/grammar.c"
     break;
 
   case 93: /* expression: for_expression "<of>" string_set  */
-#line 1760 "libyara/grammar.y"
+#line 1768 "libyara/grammar.y"
       {
         if ((yyvsp[-2].expression).type == EXPRESSION_TYPE_INTEGER && (yyvsp[-2].expression).value.integer > (yyvsp[0].integer))
         {
@@ -3756,11 +3764,11 @@ yyreduce:
 
         (yyval.expression).type = EXPRESSION_TYPE_BOOLEAN;
       }
-#line 3760 "libyara/grammar.c"
+#line 3768 "libyara/grammar.c"
     break;
 
   case 94: /* expression: for_expression "<of>" rule_set  */
-#line 1783 "libyara/grammar.y"
+#line 1791 "libyara/grammar.y"
       {
         if ((yyvsp[-2].expression).type == EXPRESSION_TYPE_INTEGER && (yyvsp[-2].expression).value.integer > (yyvsp[0].integer))
         {
@@ -3772,11 +3780,11 @@ yyreduce:
         (yyval.expression).type = EXPRESSION_TYPE_BOOLEAN;
         (yyval.expression).required_strings.count = 0;
       }
-#line 3776 "libyara/grammar.c"
+#line 3784 "libyara/grammar.c"
     break;
 
   case 95: /* expression: primary_expression '%' "<of>" string_set  */
-#line 1795 "libyara/grammar.y"
+#line 1803 "libyara/grammar.y"
       {
         check_type((yyvsp[-3].expression), EXPRESSION_TYPE_INTEGER, "%");
 
@@ -3804,11 +3812,11 @@ yyreduce:
 
         fail_if_error(yr_parser_emit_with_arg(yyscanner, OP_OF_PERCENT, OF_STRING_SET, NULL, NULL));
       }
-#line 3808 "libyara/grammar.c"
+#line 3816 "libyara/grammar.c"
     break;
 
   case 96: /* expression: primary_expression '%' "<of>" rule_set  */
-#line 1823 "libyara/grammar.y"
+#line 1831 "libyara/grammar.y"
       {
         check_type((yyvsp[-3].expression), EXPRESSION_TYPE_INTEGER, "%");
 
@@ -3827,11 +3835,11 @@ yyreduce:
 
         fail_if_error(yr_parser_emit_with_arg(yyscanner, OP_OF_PERCENT, OF_RULE_SET, NULL, NULL));
       }
-#line 3831 "libyara/grammar.c"
+#line 3839 "libyara/grammar.c"
     break;
 
   case 97: /* expression: for_expression "<of>" string_set "<in>" range  */
-#line 1842 "libyara/grammar.y"
+#line 1850 "libyara/grammar.y"
       {
         if ((yyvsp[-4].expression).type == EXPRESSION_TYPE_INTEGER && (yyvsp[-4].expression).value.integer > (yyvsp[-2].integer))
         {
@@ -3854,11 +3862,11 @@ yyreduce:
 
         (yyval.expression).type = EXPRESSION_TYPE_BOOLEAN;
       }
-#line 3858 "libyara/grammar.c"
+#line 3866 "libyara/grammar.c"
     break;
 
   case 98: /* expression: for_expression "<of>" string_set "<at>" primary_expression  */
-#line 1865 "libyara/grammar.y"
+#line 1873 "libyara/grammar.y"
       {
         if ((yyvsp[0].expression).type != EXPRESSION_TYPE_INTEGER)
         {
@@ -3906,32 +3914,32 @@ yyreduce:
 
         (yyval.expression).type = EXPRESSION_TYPE_BOOLEAN;
       }
-#line 3910 "libyara/grammar.c"
+#line 3918 "libyara/grammar.c"
     break;
 
   case 99: /* expression: "<not>" boolean_expression  */
-#line 1913 "libyara/grammar.y"
+#line 1921 "libyara/grammar.y"
       {
         fail_if_error(yr_parser_emit(yyscanner, OP_NOT, NULL));
 
         (yyval.expression).type = EXPRESSION_TYPE_BOOLEAN;
         (yyval.expression).required_strings.count = 0;
       }
-#line 3921 "libyara/grammar.c"
+#line 3929 "libyara/grammar.c"
     break;
 
   case 100: /* expression: "<defined>" boolean_expression  */
-#line 1920 "libyara/grammar.y"
+#line 1928 "libyara/grammar.y"
       {
         fail_if_error(yr_parser_emit(yyscanner, OP_DEFINED, NULL));
         (yyval.expression).type = EXPRESSION_TYPE_BOOLEAN;
         (yyval.expression).required_strings.count = 0;
       }
-#line 3931 "libyara/grammar.c"
+#line 3939 "libyara/grammar.c"
     break;
 
   case 101: /* $@8: %empty  */
-#line 1926 "libyara/grammar.y"
+#line 1934 "libyara/grammar.y"
       {
         YR_FIXUP* fixup;
         YR_ARENA_REF jmp_offset_ref;
@@ -3953,11 +3961,11 @@ yyreduce:
         fixup->next = compiler->fixup_stack_head;
         compiler->fixup_stack_head = fixup;
       }
-#line 3957 "libyara/grammar.c"
+#line 3965 "libyara/grammar.c"
     break;
 
   case 102: /* expression: boolean_expression "<and>" $@8 boolean_expression  */
-#line 1948 "libyara/grammar.y"
+#line 1956 "libyara/grammar.y"
       {
         YR_FIXUP* fixup;
 
@@ -3981,11 +3989,11 @@ yyreduce:
         (yyval.expression).type = EXPRESSION_TYPE_BOOLEAN;
         (yyval.expression).required_strings.count = (yyvsp[0].expression).required_strings.count + (yyvsp[-3].expression).required_strings.count;
       }
-#line 3985 "libyara/grammar.c"
+#line 3993 "libyara/grammar.c"
     break;
 
   case 103: /* $@9: %empty  */
-#line 1972 "libyara/grammar.y"
+#line 1980 "libyara/grammar.y"
       {
         YR_FIXUP* fixup;
         YR_ARENA_REF jmp_offset_ref;
@@ -4006,11 +4014,11 @@ yyreduce:
         fixup->next = compiler->fixup_stack_head;
         compiler->fixup_stack_head = fixup;
       }
-#line 4010 "libyara/grammar.c"
+#line 4018 "libyara/grammar.c"
     break;
 
   case 104: /* expression: boolean_expression "<or>" $@9 boolean_expression  */
-#line 1993 "libyara/grammar.y"
+#line 2001 "libyara/grammar.y"
       {
         YR_FIXUP* fixup;
 
@@ -4040,11 +4048,11 @@ yyreduce:
           (yyval.expression).required_strings.count = (yyvsp[-3].expression).required_strings.count;
         }
       }
-#line 4044 "libyara/grammar.c"
+#line 4052 "libyara/grammar.c"
     break;
 
   case 105: /* expression: primary_expression "<" primary_expression  */
-#line 2023 "libyara/grammar.y"
+#line 2031 "libyara/grammar.y"
       {
         fail_if_error(yr_parser_reduce_operation(
             yyscanner, "<", (yyvsp[-2].expression), (yyvsp[0].expression)));
@@ -4052,11 +4060,11 @@ yyreduce:
         (yyval.expression).type = EXPRESSION_TYPE_BOOLEAN;
         (yyval.expression).required_strings.count = 0;
       }
-#line 4056 "libyara/grammar.c"
+#line 4064 "libyara/grammar.c"
     break;
 
   case 106: /* expression: primary_expression ">" primary_expression  */
-#line 2031 "libyara/grammar.y"
+#line 2039 "libyara/grammar.y"
       {
         fail_if_error(yr_parser_reduce_operation(
             yyscanner, ">", (yyvsp[-2].expression), (yyvsp[0].expression)));
@@ -4064,11 +4072,11 @@ yyreduce:
         (yyval.expression).type = EXPRESSION_TYPE_BOOLEAN;
         (yyval.expression).required_strings.count = 0;
       }
-#line 4068 "libyara/grammar.c"
+#line 4076 "libyara/grammar.c"
     break;
 
   case 107: /* expression: primary_expression "<=" primary_expression  */
-#line 2039 "libyara/grammar.y"
+#line 2047 "libyara/grammar.y"
       {
         fail_if_error(yr_parser_reduce_operation(
             yyscanner, "<=", (yyvsp[-2].expression), (yyvsp[0].expression)));
@@ -4076,11 +4084,11 @@ yyreduce:
         (yyval.expression).type = EXPRESSION_TYPE_BOOLEAN;
         (yyval.expression).required_strings.count = 0;
       }
-#line 4080 "libyara/grammar.c"
+#line 4088 "libyara/grammar.c"
     break;
 
   case 108: /* expression: primary_expression ">=" primary_expression  */
-#line 2047 "libyara/grammar.y"
+#line 2055 "libyara/grammar.y"
       {
         fail_if_error(yr_parser_reduce_operation(
             yyscanner, ">=", (yyvsp[-2].expression), (yyvsp[0].expression)));
@@ -4088,11 +4096,11 @@ yyreduce:
         (yyval.expression).type = EXPRESSION_TYPE_BOOLEAN;
         (yyval.expression).required_strings.count = 0;
       }
-#line 4092 "libyara/grammar.c"
+#line 4100 "libyara/grammar.c"
     break;
 
   case 109: /* expression: primary_expression "==" primary_expression  */
-#line 2055 "libyara/grammar.y"
+#line 2063 "libyara/grammar.y"
       {
         fail_if_error(yr_parser_reduce_operation(
             yyscanner, "==", (yyvsp[-2].expression), (yyvsp[0].expression)));
@@ -4100,11 +4108,11 @@ yyreduce:
         (yyval.expression).type = EXPRESSION_TYPE_BOOLEAN;
         (yyval.expression).required_strings.count = 0;
       }
-#line 4104 "libyara/grammar.c"
+#line 4112 "libyara/grammar.c"
     break;
 
   case 110: /* expression: primary_expression "!=" primary_expression  */
-#line 2063 "libyara/grammar.y"
+#line 2071 "libyara/grammar.y"
       {
         fail_if_error(yr_parser_reduce_operation(
             yyscanner, "!=", (yyvsp[-2].expression), (yyvsp[0].expression)));
@@ -4112,33 +4120,33 @@ yyreduce:
         (yyval.expression).type = EXPRESSION_TYPE_BOOLEAN;
         (yyval.expression).required_strings.count = 0;
       }
-#line 4116 "libyara/grammar.c"
-    break;
-
-  case 111: /* expression: primary_expression  */
-#line 2071 "libyara/grammar.y"
-      {
-        (yyval.expression) = (yyvsp[0].expression);
-      }
 #line 4124 "libyara/grammar.c"
     break;
 
-  case 112: /* expression: '(' expression ')'  */
-#line 2075 "libyara/grammar.y"
+  case 111: /* expression: primary_expression  */
+#line 2079 "libyara/grammar.y"
       {
-        (yyval.expression) = (yyvsp[-1].expression);
+        (yyval.expression) = (yyvsp[0].expression);
       }
 #line 4132 "libyara/grammar.c"
     break;
 
+  case 112: /* expression: '(' expression ')'  */
+#line 2083 "libyara/grammar.y"
+      {
+        (yyval.expression) = (yyvsp[-1].expression);
+      }
+#line 4140 "libyara/grammar.c"
+    break;
+
   case 113: /* for_iteration: for_variables "<in>" iterator  */
-#line 2082 "libyara/grammar.y"
+#line 2090 "libyara/grammar.y"
                                   { (yyval.integer) = FOR_ITERATION_ITERATOR; }
-#line 4138 "libyara/grammar.c"
+#line 4146 "libyara/grammar.c"
     break;
 
   case 114: /* for_iteration: "<of>" string_iterator  */
-#line 2084 "libyara/grammar.y"
+#line 2092 "libyara/grammar.y"
       {
         int var_frame;
         int result = ERROR_SUCCESS;
@@ -4159,11 +4167,11 @@ yyreduce:
 
         (yyval.integer) = FOR_ITERATION_STRING_SET;
       }
-#line 4163 "libyara/grammar.c"
+#line 4171 "libyara/grammar.c"
     break;
 
   case 115: /* for_variables: "identifier"  */
-#line 2109 "libyara/grammar.y"
+#line 2117 "libyara/grammar.y"
       {
         int result = ERROR_SUCCESS;
 
@@ -4183,11 +4191,11 @@ yyreduce:
 
         assert(loop_ctx->vars_count <= YR_MAX_LOOP_VARS);
       }
-#line 4187 "libyara/grammar.c"
+#line 4195 "libyara/grammar.c"
     break;
 
   case 116: /* for_variables: for_variables ',' "identifier"  */
-#line 2129 "libyara/grammar.y"
+#line 2137 "libyara/grammar.y"
       {
         int result = ERROR_SUCCESS;
 
@@ -4212,11 +4220,11 @@ yyreduce:
 
         loop_ctx->vars[loop_ctx->vars_count++].identifier.ptr = (yyvsp[0].c_string);
       }
-#line 4216 "libyara/grammar.c"
+#line 4224 "libyara/grammar.c"
     break;
 
   case 117: /* iterator: identifier  */
-#line 2157 "libyara/grammar.y"
+#line 2165 "libyara/grammar.y"
       {
         YR_LOOP_CONTEXT* loop_ctx = &compiler->loop[compiler->loop_index];
 
@@ -4290,11 +4298,11 @@ yyreduce:
 
         fail_if_error(result);
       }
-#line 4294 "libyara/grammar.c"
+#line 4302 "libyara/grammar.c"
     break;
 
   case 118: /* iterator: set  */
-#line 2231 "libyara/grammar.y"
+#line 2239 "libyara/grammar.y"
       {
         int result = ERROR_SUCCESS;
 
@@ -4322,11 +4330,11 @@ yyreduce:
 
         fail_if_error(result);
       }
-#line 4326 "libyara/grammar.c"
+#line 4334 "libyara/grammar.c"
     break;
 
   case 119: /* set: '(' enumeration ')'  */
-#line 2263 "libyara/grammar.y"
+#line 2271 "libyara/grammar.y"
       {
         // $2.count contains the number of items in the enumeration
         fail_if_error(yr_parser_emit_push_const(yyscanner, (yyvsp[-1].enumeration).count));
@@ -4344,22 +4352,22 @@ yyreduce:
 
         (yyval.enumeration).type = (yyvsp[-1].enumeration).type;
       }
-#line 4348 "libyara/grammar.c"
+#line 4356 "libyara/grammar.c"
     break;
 
   case 120: /* set: range  */
-#line 2281 "libyara/grammar.y"
+#line 2289 "libyara/grammar.y"
       {
         fail_if_error(yr_parser_emit(
             yyscanner, OP_ITER_START_INT_RANGE, NULL));
 
         (yyval.enumeration).type = EXPRESSION_TYPE_INTEGER;
       }
-#line 4359 "libyara/grammar.c"
+#line 4367 "libyara/grammar.c"
     break;
 
   case 121: /* range: '(' primary_expression ".." primary_expression ')'  */
-#line 2292 "libyara/grammar.y"
+#line 2300 "libyara/grammar.y"
       {
         int result = ERROR_SUCCESS;
 
@@ -4398,11 +4406,11 @@ yyreduce:
 
         fail_if_error(result);
       }
-#line 4402 "libyara/grammar.c"
+#line 4410 "libyara/grammar.c"
     break;
 
   case 122: /* enumeration: primary_expression  */
-#line 2335 "libyara/grammar.y"
+#line 2343 "libyara/grammar.y"
       {
         int result = ERROR_SUCCESS;
 
@@ -4418,11 +4426,11 @@ yyreduce:
         (yyval.enumeration).type = (yyvsp[0].expression).type;
         (yyval.enumeration).count = 1;
       }
-#line 4422 "libyara/grammar.c"
+#line 4430 "libyara/grammar.c"
     break;
 
   case 123: /* enumeration: enumeration ',' primary_expression  */
-#line 2351 "libyara/grammar.y"
+#line 2359 "libyara/grammar.y"
       {
         int result = ERROR_SUCCESS;
 
@@ -4438,38 +4446,38 @@ yyreduce:
         (yyval.enumeration).type = (yyvsp[-2].enumeration).type;
         (yyval.enumeration).count = (yyvsp[-2].enumeration).count + 1;
       }
-#line 4442 "libyara/grammar.c"
+#line 4450 "libyara/grammar.c"
     break;
 
   case 124: /* string_iterator: string_set  */
-#line 2371 "libyara/grammar.y"
+#line 2379 "libyara/grammar.y"
       {
         fail_if_error(yr_parser_emit_push_const(yyscanner, (yyvsp[0].integer)));
         fail_if_error(yr_parser_emit(yyscanner, OP_ITER_START_STRING_SET,
             NULL));
       }
-#line 4452 "libyara/grammar.c"
+#line 4460 "libyara/grammar.c"
     break;
 
   case 125: /* $@10: %empty  */
-#line 2380 "libyara/grammar.y"
+#line 2388 "libyara/grammar.y"
       {
         // Push end-of-list marker
         fail_if_error(yr_parser_emit_push_const(yyscanner, YR_UNDEFINED));
       }
-#line 4461 "libyara/grammar.c"
-    break;
-
-  case 126: /* string_set: '(' $@10 string_enumeration ')'  */
-#line 2385 "libyara/grammar.y"
-      {
-        (yyval.integer) = (yyvsp[-1].integer);
-      }
 #line 4469 "libyara/grammar.c"
     break;
 
+  case 126: /* string_set: '(' $@10 string_enumeration ')'  */
+#line 2393 "libyara/grammar.y"
+      {
+        (yyval.integer) = (yyvsp[-1].integer);
+      }
+#line 4477 "libyara/grammar.c"
+    break;
+
   case 127: /* string_set: "<them>"  */
-#line 2389 "libyara/grammar.y"
+#line 2397 "libyara/grammar.y"
       {
         fail_if_error(yr_parser_emit_push_const(yyscanner, YR_UNDEFINED));
 
@@ -4479,23 +4487,23 @@ yyreduce:
 
         (yyval.integer) = count;
       }
-#line 4483 "libyara/grammar.c"
+#line 4491 "libyara/grammar.c"
     break;
 
   case 128: /* string_enumeration: string_enumeration_item  */
-#line 2402 "libyara/grammar.y"
+#line 2410 "libyara/grammar.y"
                               { (yyval.integer) = (yyvsp[0].integer); }
-#line 4489 "libyara/grammar.c"
+#line 4497 "libyara/grammar.c"
     break;
 
   case 129: /* string_enumeration: string_enumeration ',' string_enumeration_item  */
-#line 2403 "libyara/grammar.y"
+#line 2411 "libyara/grammar.y"
                                                      { (yyval.integer) = (yyvsp[-2].integer) + (yyvsp[0].integer); }
-#line 4495 "libyara/grammar.c"
+#line 4503 "libyara/grammar.c"
     break;
 
   case 130: /* string_enumeration_item: "string identifier"  */
-#line 2409 "libyara/grammar.y"
+#line 2417 "libyara/grammar.y"
       {
         int count = 0;
         int result = yr_parser_emit_pushes_for_strings(yyscanner, (yyvsp[0].c_string), &count);
@@ -4505,11 +4513,11 @@ yyreduce:
 
         (yyval.integer) = count;
       }
-#line 4509 "libyara/grammar.c"
+#line 4517 "libyara/grammar.c"
     break;
 
   case 131: /* string_enumeration_item: "string identifier with wildcard"  */
-#line 2419 "libyara/grammar.y"
+#line 2427 "libyara/grammar.y"
       {
         int count = 0;
         int result = yr_parser_emit_pushes_for_strings(yyscanner, (yyvsp[0].c_string), &count);
@@ -4519,40 +4527,40 @@ yyreduce:
 
         (yyval.integer) = count;
       }
-#line 4523 "libyara/grammar.c"
+#line 4531 "libyara/grammar.c"
     break;
 
   case 132: /* $@11: %empty  */
-#line 2433 "libyara/grammar.y"
+#line 2441 "libyara/grammar.y"
       {
         // Push end-of-list marker
         fail_if_error(yr_parser_emit_push_const(yyscanner, YR_UNDEFINED));
       }
-#line 4532 "libyara/grammar.c"
-    break;
-
-  case 133: /* rule_set: '(' $@11 rule_enumeration ')'  */
-#line 2438 "libyara/grammar.y"
-      {
-        (yyval.integer) = (yyvsp[-1].integer);
-      }
 #line 4540 "libyara/grammar.c"
     break;
 
+  case 133: /* rule_set: '(' $@11 rule_enumeration ')'  */
+#line 2446 "libyara/grammar.y"
+      {
+        (yyval.integer) = (yyvsp[-1].integer);
+      }
+#line 4548 "libyara/grammar.c"
+    break;
+
   case 134: /* rule_enumeration: rule_enumeration_item  */
-#line 2445 "libyara/grammar.y"
+#line 2453 "libyara/grammar.y"
                             { (yyval.integer) = (yyvsp[0].integer); }
-#line 4546 "libyara/grammar.c"
+#line 4554 "libyara/grammar.c"
     break;
 
   case 135: /* rule_enumeration: rule_enumeration ',' rule_enumeration_item  */
-#line 2446 "libyara/grammar.y"
+#line 2454 "libyara/grammar.y"
                                                  { (yyval.integer) = (yyvsp[-2].integer) + (yyvsp[0].integer); }
-#line 4552 "libyara/grammar.c"
+#line 4560 "libyara/grammar.c"
     break;
 
   case 136: /* rule_enumeration_item: "identifier"  */
-#line 2452 "libyara/grammar.y"
+#line 2460 "libyara/grammar.y"
       {
         int result = ERROR_SUCCESS;
 
@@ -4585,11 +4593,11 @@ yyreduce:
 
         (yyval.integer) = 1;
       }
-#line 4589 "libyara/grammar.c"
+#line 4597 "libyara/grammar.c"
     break;
 
   case 137: /* rule_enumeration_item: "identifier" '*'  */
-#line 2485 "libyara/grammar.y"
+#line 2493 "libyara/grammar.y"
       {
         int count = 0;
         YR_NAMESPACE* ns = (YR_NAMESPACE*) yr_arena_get_ptr(
@@ -4612,11 +4620,11 @@ yyreduce:
 
         (yyval.integer) = count;
       }
-#line 4616 "libyara/grammar.c"
+#line 4624 "libyara/grammar.c"
     break;
 
   case 138: /* for_expression: primary_expression  */
-#line 2512 "libyara/grammar.y"
+#line 2520 "libyara/grammar.y"
       {
         if ((yyvsp[0].expression).type == EXPRESSION_TYPE_INTEGER && !IS_UNDEFINED((yyvsp[0].expression).value.integer))
         {
@@ -4672,57 +4680,57 @@ yyreduce:
 
         (yyval.expression).value.integer = (yyvsp[0].expression).value.integer;
       }
-#line 4676 "libyara/grammar.c"
-    break;
-
-  case 139: /* for_expression: for_quantifier  */
-#line 2568 "libyara/grammar.y"
-      {
-        (yyval.expression).value.integer = (yyvsp[0].expression).value.integer;
-      }
 #line 4684 "libyara/grammar.c"
     break;
 
+  case 139: /* for_expression: for_quantifier  */
+#line 2576 "libyara/grammar.y"
+      {
+        (yyval.expression).value.integer = (yyvsp[0].expression).value.integer;
+      }
+#line 4692 "libyara/grammar.c"
+    break;
+
   case 140: /* for_quantifier: "<all>"  */
-#line 2575 "libyara/grammar.y"
+#line 2583 "libyara/grammar.y"
       {
         fail_if_error(yr_parser_emit_push_const(yyscanner, YR_UNDEFINED));
         (yyval.expression).type = EXPRESSION_TYPE_QUANTIFIER;
         (yyval.expression).value.integer = FOR_EXPRESSION_ALL;
      }
-#line 4694 "libyara/grammar.c"
+#line 4702 "libyara/grammar.c"
     break;
 
   case 141: /* for_quantifier: "<any>"  */
-#line 2581 "libyara/grammar.y"
+#line 2589 "libyara/grammar.y"
       {
         fail_if_error(yr_parser_emit_push_const(yyscanner, 1));
         (yyval.expression).type = EXPRESSION_TYPE_QUANTIFIER;
         (yyval.expression).value.integer = FOR_EXPRESSION_ANY;
       }
-#line 4704 "libyara/grammar.c"
+#line 4712 "libyara/grammar.c"
     break;
 
   case 142: /* for_quantifier: "<none>"  */
-#line 2587 "libyara/grammar.y"
+#line 2595 "libyara/grammar.y"
       {
         fail_if_error(yr_parser_emit_push_const(yyscanner, 0));
         (yyval.expression).type = EXPRESSION_TYPE_QUANTIFIER;
         (yyval.expression).value.integer = FOR_EXPRESSION_NONE;
       }
-#line 4714 "libyara/grammar.c"
-    break;
-
-  case 143: /* primary_expression: '(' primary_expression ')'  */
-#line 2597 "libyara/grammar.y"
-      {
-        (yyval.expression) = (yyvsp[-1].expression);
-      }
 #line 4722 "libyara/grammar.c"
     break;
 
+  case 143: /* primary_expression: '(' primary_expression ')'  */
+#line 2605 "libyara/grammar.y"
+      {
+        (yyval.expression) = (yyvsp[-1].expression);
+      }
+#line 4730 "libyara/grammar.c"
+    break;
+
   case 144: /* primary_expression: "<filesize>"  */
-#line 2601 "libyara/grammar.y"
+#line 2609 "libyara/grammar.y"
       {
         fail_if_error(yr_parser_emit(
             yyscanner, OP_FILESIZE, NULL));
@@ -4730,11 +4738,11 @@ yyreduce:
         (yyval.expression).type = EXPRESSION_TYPE_INTEGER;
         (yyval.expression).value.integer = YR_UNDEFINED;
       }
-#line 4734 "libyara/grammar.c"
+#line 4742 "libyara/grammar.c"
     break;
 
   case 145: /* primary_expression: "<entrypoint>"  */
-#line 2609 "libyara/grammar.y"
+#line 2617 "libyara/grammar.y"
       {
         yywarning(yyscanner,
             "using deprecated \"entrypoint\" keyword. Use the \"entry_point\" "
@@ -4746,11 +4754,11 @@ yyreduce:
         (yyval.expression).type = EXPRESSION_TYPE_INTEGER;
         (yyval.expression).value.integer = YR_UNDEFINED;
       }
-#line 4750 "libyara/grammar.c"
+#line 4758 "libyara/grammar.c"
     break;
 
   case 146: /* primary_expression: "integer function" '(' primary_expression ')'  */
-#line 2621 "libyara/grammar.y"
+#line 2629 "libyara/grammar.y"
       {
         check_type((yyvsp[-1].expression), EXPRESSION_TYPE_INTEGER, "intXXXX or uintXXXX");
 
@@ -4764,33 +4772,33 @@ yyreduce:
         (yyval.expression).type = EXPRESSION_TYPE_INTEGER;
         (yyval.expression).value.integer = YR_UNDEFINED;
       }
-#line 4768 "libyara/grammar.c"
+#line 4776 "libyara/grammar.c"
     break;
 
   case 147: /* primary_expression: "integer number"  */
-#line 2635 "libyara/grammar.y"
+#line 2643 "libyara/grammar.y"
       {
         fail_if_error(yr_parser_emit_push_const(yyscanner, (yyvsp[0].integer)));
 
         (yyval.expression).type = EXPRESSION_TYPE_INTEGER;
         (yyval.expression).value.integer = (yyvsp[0].integer);
       }
-#line 4779 "libyara/grammar.c"
+#line 4787 "libyara/grammar.c"
     break;
 
   case 148: /* primary_expression: "floating point number"  */
-#line 2642 "libyara/grammar.y"
+#line 2650 "libyara/grammar.y"
       {
         fail_if_error(yr_parser_emit_with_arg_double(
             yyscanner, OP_PUSH, (yyvsp[0].double_), NULL, NULL));
 
         (yyval.expression).type = EXPRESSION_TYPE_FLOAT;
       }
-#line 4790 "libyara/grammar.c"
+#line 4798 "libyara/grammar.c"
     break;
 
   case 149: /* primary_expression: "text string"  */
-#line 2649 "libyara/grammar.y"
+#line 2657 "libyara/grammar.y"
       {
         YR_ARENA_REF ref;
 
@@ -4815,11 +4823,11 @@ yyreduce:
         (yyval.expression).type = EXPRESSION_TYPE_STRING;
         (yyval.expression).value.sized_string_ref = ref;
       }
-#line 4819 "libyara/grammar.c"
+#line 4827 "libyara/grammar.c"
     break;
 
   case 150: /* primary_expression: "string count" "<in>" range  */
-#line 2674 "libyara/grammar.y"
+#line 2682 "libyara/grammar.y"
       {
         int result = yr_parser_reduce_string_identifier(
             yyscanner, (yyvsp[-2].c_string), OP_COUNT_IN, YR_UNDEFINED);
@@ -4831,11 +4839,11 @@ yyreduce:
         (yyval.expression).type = EXPRESSION_TYPE_INTEGER;
         (yyval.expression).value.integer = YR_UNDEFINED;
       }
-#line 4835 "libyara/grammar.c"
+#line 4843 "libyara/grammar.c"
     break;
 
   case 151: /* primary_expression: "string count"  */
-#line 2686 "libyara/grammar.y"
+#line 2694 "libyara/grammar.y"
       {
         int result = yr_parser_reduce_string_identifier(
             yyscanner, (yyvsp[0].c_string), OP_COUNT, YR_UNDEFINED);
@@ -4847,11 +4855,11 @@ yyreduce:
         (yyval.expression).type = EXPRESSION_TYPE_INTEGER;
         (yyval.expression).value.integer = YR_UNDEFINED;
       }
-#line 4851 "libyara/grammar.c"
+#line 4859 "libyara/grammar.c"
     break;
 
   case 152: /* primary_expression: "string offset" '[' primary_expression ']'  */
-#line 2698 "libyara/grammar.y"
+#line 2706 "libyara/grammar.y"
       {
         int result = yr_parser_reduce_string_identifier(
             yyscanner, (yyvsp[-3].c_string), OP_OFFSET, YR_UNDEFINED);
@@ -4863,11 +4871,11 @@ yyreduce:
         (yyval.expression).type = EXPRESSION_TYPE_INTEGER;
         (yyval.expression).value.integer = YR_UNDEFINED;
       }
-#line 4867 "libyara/grammar.c"
+#line 4875 "libyara/grammar.c"
     break;
 
   case 153: /* primary_expression: "string offset"  */
-#line 2710 "libyara/grammar.y"
+#line 2718 "libyara/grammar.y"
       {
         int result = yr_parser_emit_push_const(yyscanner, 1);
 
@@ -4882,11 +4890,11 @@ yyreduce:
         (yyval.expression).type = EXPRESSION_TYPE_INTEGER;
         (yyval.expression).value.integer = YR_UNDEFINED;
       }
-#line 4886 "libyara/grammar.c"
+#line 4894 "libyara/grammar.c"
     break;
 
   case 154: /* primary_expression: "string length" '[' primary_expression ']'  */
-#line 2725 "libyara/grammar.y"
+#line 2733 "libyara/grammar.y"
       {
         int result = yr_parser_reduce_string_identifier(
             yyscanner, (yyvsp[-3].c_string), OP_LENGTH, YR_UNDEFINED);
@@ -4898,11 +4906,11 @@ yyreduce:
         (yyval.expression).type = EXPRESSION_TYPE_INTEGER;
         (yyval.expression).value.integer = YR_UNDEFINED;
       }
-#line 4902 "libyara/grammar.c"
+#line 4910 "libyara/grammar.c"
     break;
 
   case 155: /* primary_expression: "string length"  */
-#line 2737 "libyara/grammar.y"
+#line 2745 "libyara/grammar.y"
       {
         int result = yr_parser_emit_push_const(yyscanner, 1);
 
@@ -4917,11 +4925,11 @@ yyreduce:
         (yyval.expression).type = EXPRESSION_TYPE_INTEGER;
         (yyval.expression).value.integer = YR_UNDEFINED;
       }
-#line 4921 "libyara/grammar.c"
+#line 4929 "libyara/grammar.c"
     break;
 
   case 156: /* primary_expression: identifier  */
-#line 2752 "libyara/grammar.y"
+#line 2760 "libyara/grammar.y"
       {
         int result = ERROR_SUCCESS;
 
@@ -4966,11 +4974,11 @@ yyreduce:
 
         fail_if_error(result);
       }
-#line 4970 "libyara/grammar.c"
+#line 4978 "libyara/grammar.c"
     break;
 
   case 157: /* primary_expression: '-' primary_expression  */
-#line 2797 "libyara/grammar.y"
+#line 2805 "libyara/grammar.y"
       {
         int result = ERROR_SUCCESS;
 
@@ -4991,11 +4999,11 @@ yyreduce:
 
         fail_if_error(result);
       }
-#line 4995 "libyara/grammar.c"
+#line 5003 "libyara/grammar.c"
     break;
 
   case 158: /* primary_expression: primary_expression '+' primary_expression  */
-#line 2818 "libyara/grammar.y"
+#line 2826 "libyara/grammar.y"
       {
         int result = yr_parser_reduce_operation(
             yyscanner, "+", (yyvsp[-2].expression), (yyvsp[0].expression));
@@ -5030,11 +5038,11 @@ yyreduce:
 
         fail_if_error(result);
       }
-#line 5034 "libyara/grammar.c"
+#line 5042 "libyara/grammar.c"
     break;
 
   case 159: /* primary_expression: primary_expression '-' primary_expression  */
-#line 2853 "libyara/grammar.y"
+#line 2861 "libyara/grammar.y"
       {
         int result = yr_parser_reduce_operation(
             yyscanner, "-", (yyvsp[-2].expression), (yyvsp[0].expression));
@@ -5069,11 +5077,11 @@ yyreduce:
 
         fail_if_error(result);
       }
-#line 5073 "libyara/grammar.c"
+#line 5081 "libyara/grammar.c"
     break;
 
   case 160: /* primary_expression: primary_expression '*' primary_expression  */
-#line 2888 "libyara/grammar.y"
+#line 2896 "libyara/grammar.y"
       {
         int result = yr_parser_reduce_operation(
             yyscanner, "*", (yyvsp[-2].expression), (yyvsp[0].expression));
@@ -5107,11 +5115,11 @@ yyreduce:
 
         fail_if_error(result);
       }
-#line 5111 "libyara/grammar.c"
+#line 5119 "libyara/grammar.c"
     break;
 
   case 161: /* primary_expression: primary_expression '\\' primary_expression  */
-#line 2922 "libyara/grammar.y"
+#line 2930 "libyara/grammar.y"
       {
         int result = yr_parser_reduce_operation(
             yyscanner, "\\", (yyvsp[-2].expression), (yyvsp[0].expression));
@@ -5143,11 +5151,11 @@ yyreduce:
 
         fail_if_error(result);
       }
-#line 5147 "libyara/grammar.c"
+#line 5155 "libyara/grammar.c"
     break;
 
   case 162: /* primary_expression: primary_expression '%' primary_expression  */
-#line 2954 "libyara/grammar.y"
+#line 2962 "libyara/grammar.y"
       {
         check_type((yyvsp[-2].expression), EXPRESSION_TYPE_INTEGER, "%");
         check_type((yyvsp[0].expression), EXPRESSION_TYPE_INTEGER, "%");
@@ -5171,11 +5179,11 @@ yyreduce:
           (yyval.expression).type = EXPRESSION_TYPE_INTEGER;
         }
       }
-#line 5175 "libyara/grammar.c"
+#line 5183 "libyara/grammar.c"
     break;
 
   case 163: /* primary_expression: primary_expression '^' primary_expression  */
-#line 2978 "libyara/grammar.y"
+#line 2986 "libyara/grammar.y"
       {
         check_type((yyvsp[-2].expression), EXPRESSION_TYPE_INTEGER, "^");
         check_type((yyvsp[0].expression), EXPRESSION_TYPE_INTEGER, "^");
@@ -5185,11 +5193,11 @@ yyreduce:
         (yyval.expression).type = EXPRESSION_TYPE_INTEGER;
         (yyval.expression).value.integer = OPERATION(^, (yyvsp[-2].expression).value.integer, (yyvsp[0].expression).value.integer);
       }
-#line 5189 "libyara/grammar.c"
+#line 5197 "libyara/grammar.c"
     break;
 
   case 164: /* primary_expression: primary_expression '&' primary_expression  */
-#line 2988 "libyara/grammar.y"
+#line 2996 "libyara/grammar.y"
       {
         check_type((yyvsp[-2].expression), EXPRESSION_TYPE_INTEGER, "^");
         check_type((yyvsp[0].expression), EXPRESSION_TYPE_INTEGER, "^");
@@ -5199,11 +5207,11 @@ yyreduce:
         (yyval.expression).type = EXPRESSION_TYPE_INTEGER;
         (yyval.expression).value.integer = OPERATION(&, (yyvsp[-2].expression).value.integer, (yyvsp[0].expression).value.integer);
       }
-#line 5203 "libyara/grammar.c"
+#line 5211 "libyara/grammar.c"
     break;
 
   case 165: /* primary_expression: primary_expression '|' primary_expression  */
-#line 2998 "libyara/grammar.y"
+#line 3006 "libyara/grammar.y"
       {
         check_type((yyvsp[-2].expression), EXPRESSION_TYPE_INTEGER, "|");
         check_type((yyvsp[0].expression), EXPRESSION_TYPE_INTEGER, "|");
@@ -5213,11 +5221,11 @@ yyreduce:
         (yyval.expression).type = EXPRESSION_TYPE_INTEGER;
         (yyval.expression).value.integer = OPERATION(|, (yyvsp[-2].expression).value.integer, (yyvsp[0].expression).value.integer);
       }
-#line 5217 "libyara/grammar.c"
+#line 5225 "libyara/grammar.c"
     break;
 
   case 166: /* primary_expression: '~' primary_expression  */
-#line 3008 "libyara/grammar.y"
+#line 3016 "libyara/grammar.y"
       {
         check_type((yyvsp[0].expression), EXPRESSION_TYPE_INTEGER, "~");
 
@@ -5227,11 +5235,11 @@ yyreduce:
         (yyval.expression).value.integer = ((yyvsp[0].expression).value.integer == YR_UNDEFINED) ?
             YR_UNDEFINED : ~((yyvsp[0].expression).value.integer);
       }
-#line 5231 "libyara/grammar.c"
+#line 5239 "libyara/grammar.c"
     break;
 
   case 167: /* primary_expression: primary_expression "<<" primary_expression  */
-#line 3018 "libyara/grammar.y"
+#line 3026 "libyara/grammar.y"
       {
         int result;
 
@@ -5251,11 +5259,11 @@ yyreduce:
 
         fail_if_error(result);
       }
-#line 5255 "libyara/grammar.c"
+#line 5263 "libyara/grammar.c"
     break;
 
   case 168: /* primary_expression: primary_expression ">>" primary_expression  */
-#line 3038 "libyara/grammar.y"
+#line 3046 "libyara/grammar.y"
       {
         int result;
 
@@ -5275,19 +5283,19 @@ yyreduce:
 
         fail_if_error(result);
       }
-#line 5279 "libyara/grammar.c"
-    break;
-
-  case 169: /* primary_expression: regexp  */
-#line 3058 "libyara/grammar.y"
-      {
-        (yyval.expression) = (yyvsp[0].expression);
-      }
 #line 5287 "libyara/grammar.c"
     break;
 
+  case 169: /* primary_expression: regexp  */
+#line 3066 "libyara/grammar.y"
+      {
+        (yyval.expression) = (yyvsp[0].expression);
+      }
+#line 5295 "libyara/grammar.c"
+    break;
 
-#line 5291 "libyara/grammar.c"
+
+#line 5299 "libyara/grammar.c"
 
       default: break;
     }
@@ -5511,5 +5519,5 @@ yyreturnlab:
   return yyresult;
 }
 
-#line 3063 "libyara/grammar.y"
+#line 3071 "libyara/grammar.y"
 
